@@ -313,10 +313,11 @@ pub fn minimise(prop: &str, cfg: &ExecCfg, ops: &[Op], orig: &Found, budget: Dur
     let kind = orig.viol.kind;
     let opname = orig.op.clone();
     let mut cfg = cfg.clone();
-    let mut cur: Vec<Op> = ops[..=orig.at.min(ops.len().saturating_sub(1))].to_vec();
     if ops.is_empty() {
-        return (cfg, cur, orig.clone(), 0);
+        // the violation was found when the arena was created (e.g. with_capacity): nothing to shrink
+        return (cfg, Vec::new(), orig.clone(), 0);
     }
+    let mut cur: Vec<Op> = ops[..=orig.at.min(ops.len() - 1)].to_vec();
     let mut best = orig.clone();
     let mut try_ = |cfg: &ExecCfg, cand: &[Op], execs: &mut u32| -> Option<Found> {
         if t0.elapsed() > budget || *execs > 3000 {
